@@ -472,6 +472,8 @@ def _freeze_const(c):
     if "closure" in c:
         return ("closure", c["closure"])
     if "promoted" in c:
+        if c.get("powner"):
+            return ("promoted", c["promoted"], c["ty"], c["powner"])
         return ("promoted", c["promoted"], c["ty"])
     if "float" in c:
         return ("float", c["float"], c["ty"])
@@ -597,6 +599,9 @@ def fold(t):
                 return ("agg", "adt", "std::ops::ControlFlow", "Continue", a[4], ("0",))
             if a[3] == "Err":
                 return ("agg", "adt", "std::ops::ControlFlow", "Break", (a,), ("0",))
+        if isinstance(a, tuple) and a[0] == "call" and a[1].endswith("FromResidual<std::result::Result<std::convert::Infallible, E>>>::from_residual"):
+            # a Result built from a residual is always Err: `?` on it (e.g. after inlining a helper) takes the Break arm
+            return ("agg", "adt", "std::ops::ControlFlow", "Break", (a,), ("0",))
     elif k == "call" and len(t[2]) == 1 and t[1].endswith("slice::<impl [T]>::len"):
         a = t[2][0]
         if isinstance(a, tuple) and a[0] == "const" and a[1][0] == "bytes":
@@ -681,10 +686,203 @@ def term_str(t, depth=0):
 # Program
 # --------------------------------------------------------------------------------------
 
+_SUB = {}        # callee param local (callee numbering) -> caller place its reference argument points to
+_POWNER = [None]  # path of the callee being inlined (owner of its promoted constants)
+
+
+def _remap_place(pl, lo):
+    src = _SUB.get(pl["l"])
+    if src is not None and pl["p"] and pl["p"][0] == "deref":
+        # `(*param).x` in the callee is `src.x` in the caller: stores and loads of the inlined code then meet the
+        # caller's own accesses to the same object in the def-use / store search
+        q = {"l": src["l"], "p": list(src["p"])}
+        rest = pl["p"][1:]
+    else:
+        q = {"l": pl["l"] + lo, "p": []}
+        rest = pl["p"]
+    for e in rest:
+        if isinstance(e, dict) and "idx" in e:
+            e = dict(e)
+            e["idx"] = e["idx"] + lo
+        q["p"].append(e)
+    return q
+
+
+def _remap_op(o, lo):
+    if "copy" in o:
+        return {"copy": _remap_place(o["copy"], lo)}
+    if "move" in o:
+        return {"move": _remap_place(o["move"], lo)}
+    if "const" in o and "promoted" in o["const"] and "powner" not in o["const"] and _POWNER[0]:
+        c = dict(o["const"])
+        c["powner"] = _POWNER[0]
+        return {"const": c}
+    return o
+
+
+def _ref_source(B, bi, op, depth=0):
+    """The caller place a reference-typed call argument points to, when the argument is a temporary defined in the
+    calling block as `&[mut] place` (possibly through further reborrows / moves of temporaries); else None."""
+    if depth > 6:
+        return None
+    pl = op.get("move") or op.get("copy")
+    if pl is None or pl["p"]:
+        return None
+    l = pl["l"]
+    defs = [s for s in B["blocks"][bi]["stmts"] if s["k"] == "assign" and s["lhs"]["l"] == l and not s["lhs"]["p"]]
+    if len(defs) != 1:
+        return None
+    # the temporary must be defined only here in the whole caller
+    n_all = sum(1 for bk in B["blocks"] for s in bk["stmts"] if s["k"] == "assign" and s["lhs"]["l"] == l and not s["lhs"]["p"])
+    n_all += sum(1 for bk in B["blocks"] if bk["term"]["k"] == "call" and bk["term"]["dest"]["l"] == l and not bk["term"]["dest"]["p"])
+    if n_all != 1 or l <= B["arg_count"]:
+        return None
+    rv = defs[0]["rv"]
+    if rv["k"] == "ref":
+        src = rv["place"]
+        if any(isinstance(e, dict) and "idx" in e for e in src["p"]):
+            return None
+        if src["p"] and src["p"][0] == "deref":
+            # a reborrow through another temporary reference: resolve it too
+            inner = _ref_source(B, bi, {"copy": {"l": src["l"], "p": []}}, depth + 1)
+            if inner is not None:
+                return {"l": inner["l"], "p": list(inner["p"]) + list(src["p"][1:])}
+        return {"l": src["l"], "p": list(src["p"])}
+    if rv["k"] == "use":
+        return _ref_source(B, bi, rv["op"], depth + 1)
+    return None
+
+
+def _remap_rv(rv, lo):
+    rv = dict(rv)
+    for k in ("op", "a", "b"):
+        if k in rv and isinstance(rv[k], dict):
+            rv[k] = _remap_op(rv[k], lo)
+    if "place" in rv:
+        rv["place"] = _remap_place(rv["place"], lo)
+    if "fields" in rv:
+        rv["fields"] = [_remap_op(f, lo) for f in rv["fields"]]
+    return rv
+
+
+def inline_helpers(facts, is_new, max_rounds=4):
+    """Inline calls to `new helper` functions (local bodies for which is_new(path) holds) into their callers, on
+    the raw exported MIR: the callee's locals and blocks are appended (renumbered), arguments become assignments
+    to the callee's parameter locals, `return` becomes an assignment of its `_0` to the call's destination and a
+    goto.  Makes helper-extraction refactorings transparent to the rules.  Returns the list of inlined (caller, callee)."""
+    by_path = {b["path"]: b for b in facts["bodies"]}
+    done = []
+    for _round in range(max_rounds):
+        changed = False
+        for B in facts["bodies"]:
+            if B["kind"] not in ("fn", "closure"):
+                continue
+            nblk = len(B["blocks"])
+            for bi in range(nblk):
+                t = B["blocks"][bi]["term"]
+                if t["k"] != "call" or "indirect" in t["func"]:
+                    continue
+                cal = t["func"].get("rpath") or t["func"]["path"]
+                if cal == B["path"] or cal not in by_path or not is_new(cal):
+                    continue
+                C = by_path[cal]
+                if C["kind"] != "fn" or len(t["args"]) != C["arg_count"]:
+                    continue
+                if any(bk["term"]["k"] == "call" and "indirect" not in bk["term"]["func"] and (bk["term"]["func"].get("rpath") or bk["term"]["func"]["path"]) == cal for bk in C["blocks"]):
+                    continue   # recursive helper
+                lo = len(B["locals"])
+                bo = len(B["blocks"])
+                _SUB.clear()
+                _POWNER[0] = cal
+                for ai, a in enumerate(t["args"]):
+                    if not str(C["locals"][1 + ai].get("ty", "")).startswith("&"):
+                        continue
+                    # the callee must not re-assign the parameter itself
+                    if any(s_["k"] == "assign" and s_["lhs"]["l"] == 1 + ai and not s_["lhs"]["p"] for cb_ in C["blocks"] for s_ in cb_["stmts"]):
+                        continue
+                    src = _ref_source(B, bi, a)
+                    if src is not None:
+                        _SUB[1 + ai] = src
+                B["locals"] = B["locals"] + [dict(l) for l in C["locals"]]
+                for dv in C.get("debug", []):
+                    v = dv["v"]
+                    if "place" in v:
+                        B["debug"].append({"name": dv["name"], "v": {"place": _remap_place(v["place"], lo)}, "arg": None})
+                line = t.get("line", 0)
+                new_blocks = []
+                for cb in C["blocks"]:
+                    nb = {"cleanup": cb["cleanup"], "stmts": [], "term": None}
+                    for st in cb["stmts"]:
+                        st2 = dict(st)
+                        if st["k"] == "assign":
+                            st2["lhs"] = _remap_place(st["lhs"], lo)
+                            st2["rv"] = _remap_rv(st["rv"], lo)
+                        elif st["k"] == "setdiscr":
+                            st2["place"] = _remap_place(st["place"], lo)
+                        nb["stmts"].append(st2)
+                    ct = dict(cb["term"])
+                    k = ct["k"]
+                    if k == "return":
+                        nb["stmts"].append({"k": "assign", "lhs": t["dest"], "rv": {"k": "use", "op": {"move": {"l": lo, "p": []}}}, "line": ct.get("line", line), "exp": None})
+                        ct = {"k": "goto", "t": t["t"], "line": ct.get("line", line), "exp": None} if t.get("t") is not None else {"k": "unreachable", "line": line, "exp": None}
+                    else:
+                        if k == "goto":
+                            ct["t"] = ct["t"] + bo
+                        elif k == "switch":
+                            ct["discr"] = _remap_op(ct["discr"], lo)
+                            ct["tgts"] = [x + bo for x in ct["tgts"]]
+                            ct["otherwise"] = ct["otherwise"] + bo
+                        elif k in ("call", "drop", "assert"):
+                            if ct.get("t") is not None:
+                                ct["t"] = ct["t"] + bo
+                            if isinstance(ct.get("unwind"), int):
+                                ct["unwind"] = ct["unwind"] + bo
+                            if k == "call":
+                                ct["args"] = [_remap_op(a, lo) for a in ct["args"]]
+                                ct["dest"] = _remap_place(ct["dest"], lo)
+                                if "indirect" in ct["func"]:
+                                    ct["func"] = {"indirect": _remap_op(ct["func"]["indirect"], lo), "ty": ct["func"].get("ty")}
+                            elif k == "drop":
+                                ct["place"] = _remap_place(ct["place"], lo)
+                            else:
+                                ct["cond"] = _remap_op(ct["cond"], lo)
+                                ct["ops"] = [_remap_op(a, lo) for a in ct["ops"]]
+                    nb["term"] = ct
+                    new_blocks.append(nb)
+                B["blocks"] = B["blocks"] + new_blocks
+                blk = B["blocks"][bi]
+                for i, a in enumerate(t["args"]):
+                    blk["stmts"].append({"k": "assign", "lhs": {"l": lo + 1 + i, "p": []}, "rv": {"k": "use", "op": a}, "line": line, "exp": None})
+                blk["term"] = {"k": "goto", "t": bo, "line": line, "exp": None, "inlined": cal}
+                _SUB.clear()
+                _POWNER[0] = None
+                done.append((B["path"], cal))
+                changed = True
+        if not changed:
+            break
+    return done
+
+
 class Program:
     def __init__(self, facts):
         if isinstance(facts, str):
             facts = json.load(open(facts))
+        self.inlined = []
+        try:
+            import os
+            kp = os.path.join(os.path.dirname(os.path.dirname(os.path.abspath(__file__))), "spec", "known_fns.json")
+            known = set(json.load(open(kp))["fns"])
+            def is_new(path):
+                return path not in known and "::tests::" not in path and "{closure" not in path
+            self.inlined = inline_helpers(facts, is_new)
+            if self.inlined:
+                gone = {c for _, c in self.inlined}
+                # the helper bodies stay available (their closures may be referenced) but are no longer analysed as functions of their own
+                for b in facts["bodies"]:
+                    if b["path"] in gone:
+                        b["kind"] = "inlined-helper"
+        except (OSError, ValueError, KeyError):
+            pass
         self.facts = facts
         self.config = facts.get("config")
         self.ptr_bits = facts.get("pointer_bits", 64)
